@@ -51,8 +51,39 @@ def _base_self_attr(node, repo, cls):
     return None
 
 
-def param_mutations(func):
-    """names of parameters that func mutates in place (p.append(..), p[k] = v, p += ..)"""
+_PM_CACHE = {}
+
+
+def param_mutations(func, repo=None, cls=None, _stack=()):
+    """names of parameters that func mutates in place (p.append(..), p[k] = v, p += ..), directly or by handing them on to a
+    method of the same class (or to itself) in a slot that method mutates"""
+    key = (getattr(repo, "digest", None), func.construct)
+    if key in _PM_CACHE:
+        return _PM_CACHE[key]
+    out = _param_mutations_direct(func)
+    if repo is not None and cls is not None and func.construct not in _stack:
+        params = set(func.params)
+        for n in walk_no_nested(func.node):
+            if isinstance(n, ast.Call) and is_self_attr(n.func):
+                callee = repo.resolve_method(cls, n.func.attr)
+                if callee is None:
+                    continue
+                pm = _param_mutations_direct(callee) if callee.construct == func.construct else param_mutations(callee, repo, cls, _stack + (func.construct,))
+                if not pm:
+                    continue
+                ps = callee.params[1:]
+                for i, a in enumerate(n.args):
+                    if i < len(ps) and ps[i] in pm and isinstance(a, ast.Name) and a.id in params:
+                        out.add(a.id)
+                for k in n.keywords:
+                    if k.arg in pm and isinstance(k.value, ast.Name) and k.value.id in params:
+                        out.add(k.value.id)
+    if not _stack:
+        _PM_CACHE[key] = out
+    return out
+
+
+def _param_mutations_direct(func):
     out = set()
     params = set(func.params)
     for n in walk_no_nested(func.node):
@@ -98,7 +129,7 @@ def write_sites(repo, cls, func, D):
             if is_self_attr(n.func):
                 callee = repo.resolve_method(cls, n.func.attr)
                 if callee is not None:
-                    pm = param_mutations(callee)
+                    pm = param_mutations(callee, repo, cls)
                     if pm:
                         ps = callee.params[1:]
                         for i, a in enumerate(n.args):
@@ -330,12 +361,6 @@ def check(repo, res, tier):
               "the evaluators' value list is current after every sequence of three assignments in mixed formats",
               "after some sequences of parameter assignments the evaluators keep using an old value (%d of %d), e.g. %s" % (len(bad3), n3, "; ".join(bad3[:2])),
               node=setter.node)
-    # the setter refreshes the symbol order used at compile time (the named exception for _sp relies on it)
-    calls_set_sp = [n for n in walk_no_nested(setter.node) if isinstance(n, ast.Call) and is_self_attr(n.func, "set_sp")]
-    scfg = cfg_of(setter)
-    ok = bool(calls_set_sp) and scfg.must_pass_after(scfg.entry, [dataflow_of(setter).node_containing(calls_set_sp[0])])
-    res.check(ok, "R-PARAMSEQ", setter, "refreshes-symbol-order", "the parameters setter rebuilds the compile-time symbol order on every path",
-              "the parameters setter does not call set_sp() on every path: the named exception for self._sp no longer holds")
 
 
 def _discharged(repo, cls, f, site, always, depth, seen):
